@@ -112,6 +112,7 @@ type Exec struct {
 	specMark  []int
 	specLog   []specWrite
 	Poisoned  int
+	Undecided int
 	Prog *ssa.Program
 	C    *smt.Ctx
 	S    *smt.Session
@@ -465,6 +466,15 @@ func (x *Exec) Assert(cond *smt.Term, label string) {
 						fmt.Fprintf(os.Stderr, "  ambig=%d %v\n", x.C.Eval(a, m), a)
 					}
 					fmt.Fprintf(os.Stderr, "LIFT-MISMATCH label=%s term=%s\n model=%v\n", label, x.explainMismatch(t, m), m)
+				}
+				if x.overApprox {
+					// some branch condition of this path left the exact domain and was
+					// explored both ways: the candidate does not satisfy the real
+					// condition, so it is an artefact; the assertion stays undecided here
+					x.note("assertion undecided on an over-approximated path: " + label)
+					x.Undecided++
+					x.assume(cond)
+					return
 				}
 				x.findings = append(x.findings, &Finding{Kind: "unknown", Label: label, Msg: "lifted encoding disagrees with IEEE evaluation of its own model", Harness: x.harness, Path: append([]int{}, x.sc.trace...)})
 				x.assume(cond)
